@@ -135,6 +135,7 @@ class Sym:
         self.typer = typer
         self.prog: Program = typer.prog
         self._stack: List[Tuple] = []
+        self.stop_at: set = set()  # qualnames of functions that are referenced (`ref`) instead of inlined
         self.inlined: set = set()  # qualnames of functions inlined during evaluation (evidence)
 
     # ================================================================== public API
@@ -1102,6 +1103,8 @@ class Sym:
         key = ('func', func.qualname, recv[1].qualname if recv else None)
         if key in self._stack or fr.depth >= MAX_DEPTH:
             return ('rec', func.short, tuple(args))
+        if func.qualname in self.stop_at:
+            return ('ref', func.short, recv_term if recv_term is not None else NONE_T, tuple(args))
         e = _Env()
         bound = func.cls is not None and func.parent is None and not func.is_static and recv is not None
         self._bind_params(func, e, args, kwargs, skip_self=bound, fr=fr, self_term=recv_term)
@@ -1541,4 +1544,6 @@ def _pretty(t, names, top=False) -> str:
         return f'new {t[1]}(' + ', '.join(pretty(x) for x in t[2]) + ''.join(f', {a}={pretty(b)}' for a, b in t[3]) + ')'
     if k == 'bottom':
         return '⊥'
+    if k == 'ref':
+        return f'Ref<{t[1]}>({pretty(t[2])}' + ''.join(', ' + pretty(x) for x in t[3]) + ')'
     return str(t)
